@@ -93,6 +93,22 @@ func checkGoWaitGroup(r *Reporter, p *Prog, rule, pkg string, fd *ast.FuncDecl, 
 			}
 			dones := wgCalls(info, body, "Done")
 			if len(dones) == 0 {
+				// the Done may live in a stage helper of the goroutine's function (spliced in)
+				if bb, isBlock := body.(*ast.BlockStmt); isBlock {
+					gf := newFuncCFG(p, info, bb, fkey+"$goroutine")
+					for _, b := range gf.G.Blocks {
+						if !b.Live {
+							continue
+						}
+						for _, nd := range b.Nodes {
+							for k, v := range wgCalls(info, nd, "Done") {
+								dones[k] = v
+							}
+						}
+					}
+				}
+			}
+			if len(dones) == 0 {
 				continue
 			}
 			nGo++
